@@ -226,9 +226,10 @@ CLAIMED = {
          "cas_fails_only_by_interference, link_retry_succeeds. Tie: freeze / solo-run schedules of the real sources under the cooperative "
          "runtime (spin hints distinguish waiting from working; own primitives counted against the model bound); the read-side "
          "primitives through the C01 trace refinement (straight-line L1 transliteration). Hash table (Props/C17Lfht.lean): "
-         "walker_wait_free (lookup / first / next / next_duplicate return within |L| + unlinked + 5 own steps, measure wmu, under "
-         "NoFreedAhead), hop_decreases, cas_fails_only_by_interference. Partial: solo termination of lfht add / add_unique / "
-         "add_replace / replace / del (SoloTerminates) is stated, unproved - covered by the progress oracle on freeze schedules.",
+         "C17Lfht_full_holds: walker_wait_free (lookup / first / next / next_duplicate return within |L| + unlinked + 5 own steps, "
+         "measure wmu; memory safety from C07's reclaim_safe), hop_decreases, cas_fails_only_by_interference, solo_terminates (add / "
+         "add_unique / add_replace / replace / del / traversals run alone from any reachable state return within "
+         "(flagged+5)*(2(|L|+unlinked)+14) own steps, helping frozen removals; measure Mu).",
     note="Trusted: Lean kernel; x86-TSO; blocking operations (*_blocking, sync_next, mutex-taking wrappers) are not claimed; tie on explored "
          "freeze schedules only.",
     technique="Lean 4 termination-measure / bounded-solo-run proofs on TSO transition systems + freeze-schedule trace refinement of the real sources",
@@ -295,44 +296,48 @@ CLAIMED = {
     technique="Lean 4 invariants (bookkeeping / refcount / handshake per label; list-decomposition proof of the marker-FIFO invariant) + the C03 trace refinement",
     design_ref="§4 C04", engine="callrcu"),
  "C05": dict(
-    text="Lean 4 theorem C05_partial_holds on an executable step-level model of the concurrent src/rculfhash.c (Lfht/Conc: one step per "
+    text="Lean 4 theorem C05_full_holds on an executable step-level model of the concurrent src/rculfhash.c (Lfht/Conc: one step per "
          "load of a next word / ht->size and per RMW, any number of threads, every interleaving, grow / shrink level by level with "
          "partition helpers, abstract grace periods, ghost list L of the nodes linked from bucket 0): chain_L, sorted_L, "
          "unremoved_linked_in_L, sorted_edges, insert_cas_sound, grow_before_publish, traversal_monotone, visible_set_linearizes (the "
          "set of visible nodes changes only at the insertion CAS, the REMOVED fetch-or and the replace CAS), found_was_visible, "
          "resident_found (cds_lfht_lookup never answers 'not found' while a node with that hash and key stays visible - under adds, "
          "removals, replaces, helping and resizes). Tie: the real src/rculfhash.c (+ urcu.c memb, workqueue.c, the three mm plug-ins) under the shim; 2-4 workers + resizer + lazy-resize worker; random / PCT / one-preemption sweep over 22 directed scripts (seed-independent); every next word, ht->size access, memory order and API result replayed by Driver/LfhtConc.lean on the model; partitioned resize (helper threads) in the thorough tier; oracles lin (Wing-Gong linearizability search against a "
-         "reference multimap on small histories), resident, replabsent. Partial: C05_full adds ResidentFoundTraversal (first/next "
-         "across calls), stated and unproved; global linearizability is not a theorem (linearisation-point facts proved, the "
-         "Wing-Gong oracle checks explored schedules only).",
+         "reference multimap on small histories), resident, replabsent. C05_full_holds additionally gives resident_found_traversal "
+         "(first/next traversals across calls through the saved iterator; position invariant NotYet). Partial: global "
+         "linearizability against a multimap is not a theorem (linearisation-point facts proved, the Wing-Gong oracle checks "
+         "explored schedules only).",
     note="Trusted: Lean kernel; SC = x86-TSO for this structure (every shared mutation of a next word is a locked RMW; private "
          "initialisation folded into the publishing CAS); abstract GpSpec grace periods; node identifiers never reused in the model; "
          "L1 ⊑ L2 on explored schedules only; split counters / resize_target arbitration belong to C09.",
     technique="Lean 4 layered inductive invariants (resize skeleton, life cycle and flags, owner automaton, ghost list, frozen edges; one lemma per label) + event-level trace refinement of the real source with linearizability and residency oracles",
     design_ref="§4 C05", engine="lfhtc"),
  "C06": dict(
-    text="Lean 4 theorem C06_partial_holds on the concurrent hash-table model of C05: replace_atomic (one step; old visible before, new "
+    text="Lean 4 theorem C06_full_holds on the concurrent hash-table model of C05: replace_atomic (one step; old visible before, new "
          "visible after, same hash and key, exactly one owner of old), replace_keeps_key_visible (a present key is never 'neither' and "
          "never 'both' across the replace step), unique_inserts_at_run_head (the insertion CAS of a unique add targets the predecessor "
          "of the equal-hash run it scanned), replace_single_owner. Tie: the real src/rculfhash.c (+ urcu.c memb, workqueue.c, the three mm plug-ins) under the shim; 2-4 workers + resizer + lazy-resize worker; random / PCT / one-preemption sweep over 22 directed scripts (seed-independent); every next word, ht->size access, memory order and API result replayed by Driver/LfhtConc.lean on the model; partitioned resize (helper threads) in the thorough tier; oracles dupkey (no lookup / duplicate walk / "
          "traversal returns two nodes of a unique-only key; add_unique winner and returned-node rule; add_replace inserts without "
          "replacing only when the key was possibly absent), replabsent (a continuously present key is never reported absent during "
-         "replacement), replowner. Partial: C06_full adds UniqInL, NoTwoVisible, OneWinner (need a scan-coverage invariant of the "
-         "duplicate scan): stated, unproved - covered by the dupkey oracle on explored schedules only.",
+         "replacement), replowner. C06_full_holds additionally: uniq_in_L (scan-coverage invariant InvK: under unique-only use of a key "
+         "at most one node with that key is visible), no_two_visible (no walk or traversal without a restart inside the section "
+         "returns two nodes of the key), one_winner (of concurrent add_unique calls for an absent key exactly one inserts; every "
+         "other returns a node that was present during its call).",
     note="Trusted: as C05.",
     technique="Lean 4 inductive invariants on the concurrent hash-table model (replace CAS atomicity, insertion position, owner automaton) + event-level trace refinement with duplicate-key and replace oracles",
     design_ref="§4 C06", engine="lfhtc"),
  "C07": dict(
-    text="Lean 4 theorem C07_partial_holds on the concurrent hash-table model of C05: single_owner (state form: wins p <= 1, wins p = 1 iff "
+    text="Lean 4 theorem C07_full_holds on the concurrent hash-table model of C05: single_owner (state form: wins p <= 1, wins p = 1 iff "
          "REMOVAL_OWNER set, a del that passed the REMOVED test implies an owner; run form: along any execution at most one "
          "del / replace / add_replace call returns success for a node and it is the decided winner), removed_frozen (once REMOVED is set "
          "the pointer part never changes), bucket_never_removed_while_published; necessity witness Neg/C07 single_owner_needs_xchg "
          "(`or` instead of `xchg` for the owner flag gives two owners, by decide). Tie: the real src/rculfhash.c (+ urcu.c memb, workqueue.c, the three mm plug-ins) under the shim; 2-4 workers + resizer + lazy-resize worker; random / PCT / one-preemption sweep over 22 directed scripts (seed-independent); every next word, ht->size access, memory order and API result replayed by Driver/LfhtConc.lean on the model; partitioned resize (helper threads) in the thorough tier; oracles owner (at most one, "
          "exactly one at quiescence), quarantine (removed nodes one grace period after the owner's return, bucket tables after a "
          "shrink, ht after destroy: poisoned and kept, any later access faults), gp (real synchronize_rcu against open sections); the "
-         "model's reclaim / tblFree labels are enabled only after its grace period. Partial: C07_full adds DelReturnsUnlinked and "
-         "ReclaimSafe (gc_bucket postcondition; 'pointer held since before the unlink'): stated, unproved - covered by the quarantine / "
-         "gp oracles on explored schedules only.",
+         "model's reclaim / tblFree labels are enabled only after its grace period. C07_full_holds additionally: "
+         "del_returns_unlinked (gc_bucket postcondition: when the owner's call returns the node is not in the ghost list), "
+         "reclaim_safe (layer S: every pointer a thread holds inside a section is linked or was unlinked after the section began; "
+         "uaf = false in every reachable state, covering bucket tables freed by a shrink) and no_step_crashes.",
     note="Trusted: as C05.",
     technique="Lean 4 inductive invariants (flag automaton of one next word, grace-period window of bucket removal) + event-level trace refinement with ownership and quarantine oracles",
     design_ref="§4 C07", engine="lfhtc"),
